@@ -266,6 +266,12 @@ class MergerOffsets(Harness):
 
 
 CANARIES = {
+    'CreatorQueries': [
+        ('single tile fetched for its rectangle clipped to the grid extent', {'mapproxy.cache.tile': [(
+            "        tile_bbox = self.grid.tile_bbox(tile.coord)\n        query = MapQuery(tile_bbox, self.grid.tile_size, self.grid.srs,",
+            "        tile_bbox = self.grid.tile_bbox(tile.coord, limit=True)\n        query = MapQuery(tile_bbox, self.grid.tile_size, self.grid.srs,")]},
+         dict(grid='utm_ll', meta_size=(1, 1), meta_buffer=0, level=1, mode='single')),
+    ],
     'MetaTileGeo': [
         ('pattern uses buffers[1] for the top offset', {'mapproxy.grid': [(
             "i*self.grid.tile_size[1] + buffers[3])", "i*self.grid.tile_size[1] + buffers[1])")]},
@@ -301,6 +307,90 @@ CANARIES = {
 }
 
 
+class CreatorQueries(MetaHarness):
+    """what the tile creator asks the upstream for: producing a tile alone or as one tile of a bulk meta tile queries
+    exactly that tile's own (unclipped) rectangle at tile size; producing it through a meta tile queries the meta tile's
+    rectangle at the meta tile's size -- for a symbolic tile of a grid whose extent is not a multiple of the tile span."""
+    modules = ['mapproxy.grid', 'mapproxy.cache.tile']
+    functions = ['TileCreator._create_single_tile', 'TileCreator._create_bulk_meta_tile', 'TileCreator._create_meta_tile',
+                 'TileCreator._query_sources', 'MetaGrid.meta_tile', 'TileGrid.tile_bbox']
+
+    @classmethod
+    def build(cls, L, cfg):
+        from props import tmstub
+        ctx = MetaHarness.build.__func__(cls, L, cfg)
+        t = L.mods['mapproxy.cache.tile']
+        t.__dict__['TileSplitter'] = tmstub.FakeSplitter
+        ctx['t'] = t
+        return ctx
+
+    @classmethod
+    def prop(cls, ctx, cfg, tx, ty):
+        from props import tmstub
+        t, G, MG = ctx['t'], ctx['G'], ctx['MG']
+        level = cfg['level']
+        ev = []
+
+        class EmptyCache(object):
+            supports_timestamp = False
+            coverage = None
+
+            def is_cached(self, tile, dimensions=None):
+                return False
+
+            def load_tile(self, tile, with_metadata=False, dimensions=None):
+                return False
+
+            def store_tile(self, tile, dimensions=None):
+                ev.append(('store', tile.coord, tile.source.tag))
+                return True
+
+            def store_tiles(self, tiles, dimensions=None):
+                for x in tiles:
+                    ev.append(('store', x.coord, x.source.tag))
+                return True
+        src = tmstub.RecSource(ev)
+        mode = cfg['mode']
+        src.supports_meta_tiles = mode == 'meta'
+        mgr = t.TileManager(G, EmptyCache(), [src], 'png', tmstub.RecLocker(ev), image_opts=None,
+                            meta_size=None if mode == 'single' else list(cfg['meta_size']), meta_buffer=cfg['meta_buffer'] if mode == 'meta' else 0,
+                            bulk_meta_tiles=(mode == 'bulk'))
+        cr = mgr.creator()
+        coord = (tx, ty, level)
+        if mode == 'single':
+            cr._create_single_tile(t.Tile(coord))
+        elif mode == 'bulk':
+            cr._create_bulk_meta_tile(mgr.meta_grid.meta_tile(coord))
+        else:
+            cr._create_meta_tile(mgr.meta_grid.meta_tile(coord))
+        calls = [e for e in ev if e[0] == 'get_map']
+        stores = [e for e in ev if e[0] == 'store']
+        res = G.resolution(level)
+        eps = res * 1e-6 + 2 * ABS_ROUND
+        tw, th = G.tile_size
+        ok = True
+        if mode == 'meta':
+            mt = mgr.meta_grid.meta_tile(coord)
+            ok = AND(len(calls) == 1, calls[0][2][0] == mt.size[0], calls[0][2][1] == mt.size[1])
+            for i in range(4):
+                ok = AND(ok, within(calls[0][1][i], mt.bbox[i], eps))
+            return ok
+        want_n = 1 if mode == 'single' else len([c for c in mgr.meta_grid.meta_tile(coord).tiles if c is not None])
+        ok = AND(len(calls) == want_n, len(stores) == want_n)
+        found = False
+        for st in stores:
+            c, tag = st[1], st[2]
+            tb = G.tile_bbox(c)
+            # the stored image of address c is the upstream answer for exactly the rectangle of c ...
+            ok = AND(ok, tag[0] == 'fresh')
+            for i in range(4):
+                ok = AND(ok, within(tag[1][i], tb[i], eps))
+            found = OR(found, AND(c[0] == tx, c[1] == ty))
+        for cl in calls:
+            ok = AND(ok, cl[2][0] == tw, cl[2][1] == th)      # ... asked for at tile size
+        return AND(ok, found)
+
+
 def obligations(tier, seed):
     import mapproxy.grid as real_grid
     specs = []
@@ -318,12 +408,17 @@ def obligations(tier, seed):
                 specs.append(spec(MOD, 'MetaTileGeo', 'meta-tile/' + tag, cfg=c, cost=3))
                 if ms != (1, 1) and (tier == 'thorough' or level in levels[1:3]):
                     specs.append(spec(MOD, 'MinimalMetaTile', 'minimal-meta-tile/' + tag, cfg=c, cost=10))
+    for gname, level in (('utm_ll', 1), ('frac_ll', 1), ('utm_ul', 2)) + ((('multi0_ul', 1), ('frac_ul', 2), ('sqrt2_ll', 2)) if tier == 'thorough' else ()):
+        for mode, ms, mb in (('single', (1, 1), 0), ('bulk', (2, 2), 0), ('bulk', (3, 2), 0), ('meta', (2, 2), 10)):
+            c = dict(grid=gname, seed=seed, level=level, meta_size=list(ms), meta_buffer=mb, mode=mode)
+            specs.append(spec(MOD, 'CreatorQueries', 'creator-queries/%s/L%d/%s-m%dx%d' % (gname, level, mode, ms[0], ms[1]), cfg=c, cost=5))
     for ts in [(256, 256), (200, 300), (512, 256)]:
         specs.append(spec(MOD, 'SplitterCrop', 'splitter-crop/%dx%d' % ts, cfg=dict(tile_size=list(ts))))
         specs.append(spec(MOD, 'MergerOffsets', 'merger-offsets/%dx%d' % ts, cfg=dict(tile_size=list(ts))))
     twins = dict(MetaTileGeo=dict(grid='utm_ll', meta_size=[3, 2], meta_buffer=10, level=2),
                  MinimalMetaTile=dict(grid='utm_ul', meta_size=[4, 4], meta_buffer=80, level=3),
-                 SplitterCrop=dict(tile_size=[256, 256]), MergerOffsets=dict(tile_size=[256, 256]))
+                 SplitterCrop=dict(tile_size=[256, 256]), MergerOffsets=dict(tile_size=[256, 256]),
+                 CreatorQueries=dict(grid='utm_ll', level=1, meta_size=[2, 2], meta_buffer=0, mode='bulk'))
     for hname, c in twins.items():
         specs.append(spec(MOD, hname, 'twin/' + hname, kind='witness', cfg=dict(c, seed=seed)))
     for hname, cans in CANARIES.items():
